@@ -557,6 +557,10 @@ impl Scenario {
         })).ok();
         let (a, b) = (cont(&s), cont(&restored));
         self.bump("c08_restarts_compared");
+        // C07: the state rebuilt from a block has that block's header (the header commits to everything it was rebuilt from)
+        if let Ok(hr) = catch_unwind(AssertUnwindSafe(|| restored.header())) {
+            if hr != blk.header { self.viol("C07", "the state rebuilt from a block (from_block) does not have that block's header".into()); }
+        }
         // known finding F16 covers only a state sealed WITHOUT a proposer action that still holds tips
         if a != b { if tips > 0 && blk.proposer_action.is_none() { self.tag("F16"); } self.viol("C08", format!("restored state diverges from the original (tips at restart = {}, sealed {} a proposer action)", tips, if blk.proposer_action.is_some() { "with" } else { "without" })); }
         self.mode = Mode::S(restored);
@@ -1603,7 +1607,7 @@ pub fn directed(r: &mut Rng) -> Vec<Scenario> {
         let d = sc.dump_now(); sc.init = sc.dump_str(&d);
         let at = sc.at();
         let g = sc.coin_of(Denom::Mel, 1 << 40).unwrap();
-        let split = sc.mk(r, TxKind::Normal, &[g], vec![sc.cd(at, 1 << 40, Denom::Mel), sc.cd(at, 1 << 40, Denom::Mel), sc.cd(at, 1 << 40, Denom::Mel)], vec![]);
+        let split = sc.mk(r, TxKind::Normal, &[g], vec![sc.cd(at, 1 << 40, Denom::Mel), sc.cd(at, 1 << 40, Denom::Mel), sc.cd(at, 1 << 40, Denom::Mel), sc.cd(at, 1 << 40, Denom::Mel), sc.cd(at, 1 << 40, Denom::Mel), sc.cd(at, 1 << 40, Denom::Mel)], vec![]);
         sc.op_batch(&[split.clone()]);
         sc.block_end(None);
         let coin = |i: u8| (CoinID::new(split.hash_nosigs(), i), CoinDataHeight { coin_data: split.outputs[i as usize].clone(), height: BlockHeight(0) });
@@ -1621,8 +1625,16 @@ pub fn directed(r: &mut Rng) -> Vec<Scenario> {
         };
         // height 1: difficulty 20, age 1 -> speed 2^20 > 10^6; reward 381
         let t = mint(&mut sc, r, coin(0), 20, 382, false); sc.op_batch(&[t]);
-        let t = mint(&mut sc, r, coin(0), 20, 381, true); sc.op_batch(&[t]);
-        let t = mint(&mut sc, r, coin(0), 20, 381, false); sc.op_batch(&[t]);
+        // two mints of one block: each reward is measured against the speed of the previous block's header (10^6), not
+        // against the speed a faster mint of the same block has just raised: 2^38 / (2880 * 10^6) = 95.
+        // Together in one batch (every order and one at a time must agree), then one more applied on its own.
+        let t = mint(&mut sc, r, coin(3), 19, 96, false); sc.op_batch(&[t]);
+        let ta = mint(&mut sc, r, coin(0), 20, 381, false);
+        let tb = mint(&mut sc, r, coin(3), 19, 95, false);
+        sc.op_batch(&[ta, tb]);
+        let t = mint(&mut sc, r, coin(4), 19, 95, false); sc.op_batch(&[t]);
+        // a proof with one flipped bit (MelPoW checks a sample of the proof: the oracle answers)
+        let t = mint(&mut sc, r, coin(5), 19, 95, true); sc.op_batch(&[t]);
         sc.block_end(None);
         // height 2: difficulty 18, age 2, previous speed 2^20 -> reward 10
         let t = mint(&mut sc, r, coin(1), 18, 11, false); sc.op_batch(&[t]);
@@ -1937,6 +1949,97 @@ pub fn directed(r: &mut Rng) -> Vec<Scenario> {
         for bad in 0..n { let v: Vec<(usize, bool)> = (0..n).map(|i| (i, i != bad)).collect(); sc.op_confirm(&v); }
         for skip in 0..n { let v: Vec<(usize, bool)> = (0..n).filter(|i| *i != skip).map(|i| (i, true)).collect(); sc.op_confirm(&v); }
         for skip in 0..n { for bad in 0..n { if bad != skip { let v: Vec<(usize, bool)> = (0..n).filter(|i| *i != skip).map(|i| (i, i != bad)).collect(); sc.op_confirm(&v); } } }
+        out.push(sc);
+    }
+    // a withdrawal request whose output is spent by another transaction of the same block is not a request
+    {
+        let mut sc = base("d_withdraw_spent_output", r, NetID::Custom02, 1000);
+        let at = sc.at();
+        sc.block_end(None);
+        let key = PoolKey::new(Denom::Mel, Denom::Sym);
+        let liq = key.liq_token_denom();
+        let m = sc.coin_of(Denom::Mel, 1 << 40).unwrap();
+        let sy = sc.coin_of(Denom::Sym, 1 << 30).unwrap();
+        let dep = sc.mk(r, TxKind::LiqDeposit, &[m, sy.clone()], vec![sc.cd(at, 1 << 30, Denom::Mel), sc.cd(at, 1 << 30, Denom::Sym), sc.cd(at, sy.1.coin_data.value.0 - (1 << 30), Denom::Sym)], key.to_bytes().to_vec());
+        sc.op_batch(&[dep]);
+        sc.block_end(None);
+        if let Some(h) = sc.wallet().coins.into_iter().find(|(_, c)| c.coin_data.denom == liq && c.coin_data.value.0 > 10) {
+            let m = sc.coin_of(Denom::Mel, 1 << 40).unwrap();
+            let mut t = Transaction::new(TxKind::LiqWithdraw);
+            t.outputs = vec![sc.cd(at, h.1.coin_data.value.0, liq)];
+            t.data = key.to_bytes();
+            let mut w = sc.finish_tx(r, t, &[m, h.clone()], 0, 0);
+            if w.outputs.len() > 1 { let ch = w.outputs.pop().unwrap(); w.fee = CoinValue(w.fee.0 + ch.value.0); }
+            // re-sign is not needed: every input is under the always-true covenant
+            sc.op_batch(&[w.clone()]);
+            let height = sc.ustate().verif_height();
+            let wc = (CoinID::new(w.hash_nosigs(), 0), CoinDataHeight { coin_data: w.outputs[0].clone(), height });
+            let m2 = sc.wallet().coins.into_iter().filter(|(id, c)| c.coin_data.denom == Denom::Mel && c.coin_data.covhash == at && c.coin_data.value.0 >= 1 << 40 && !w.inputs.contains(id)).next();
+            if let Some(m2) = m2 {
+                let sp = sc.mk(r, TxKind::Normal, &[m2, wc], vec![sc.cd(at, h.1.coin_data.value.0, liq), sc.cd(at, 1 << 30, Denom::Mel)], vec![]);
+                sc.op_batch(&[sp]);
+            }
+            sc.block_end(None);
+            sc.block_end(None);
+        }
+        out.push(sc);
+    }
+    // two withdrawals that each fit the pool's recorded liquidity but not together (tokens from a faucet)
+    {
+        let mut sc = base("d_withdraw_sum_exceeds", r, NetID::Custom02, 1000);
+        let at = sc.at();
+        sc.block_end(None);
+        let key = PoolKey::new(Denom::Mel, Denom::Sym);
+        sc.dict.pool(key);
+        let liq = key.liq_token_denom();
+        let f = sc.fund(r, &[(600_000_000, liq), (600_000_000, liq)]);
+        sc.op_batch(&[f.clone()]);
+        sc.block_end(None);
+        let mut used: Vec<CoinID> = vec![];
+        for i in 0..2u8 {
+            let h = (CoinID::new(f.hash_nosigs(), i), CoinDataHeight { coin_data: f.outputs[i as usize].clone(), height: BlockHeight(1) });
+            let m = sc.wallet().coins.into_iter().filter(|(id, c)| c.coin_data.denom == Denom::Mel && c.coin_data.covhash == at && c.coin_data.value.0 >= 1 << 40 && !used.contains(id)).next();
+            if let Some(m) = m {
+                used.push(m.0);
+                let mut t = Transaction::new(TxKind::LiqWithdraw);
+                t.outputs = vec![sc.cd(at, 600_000_000, liq)];
+                t.data = key.to_bytes();
+                let mut w = sc.finish_tx(r, t, &[m, h], 0, 0);
+                if w.outputs.len() > 1 { let ch = w.outputs.pop().unwrap(); w.fee = CoinValue(w.fee.0 + ch.value.0); }
+                sc.op_batch(&[w]);
+            }
+        }
+        sc.block_end(None);
+        sc.block_end(None);
+        out.push(sc);
+    }
+    // a faucet transaction that lists inputs: they need their covenants' approval like any other spend
+    {
+        let mut sc = base("d_faucet_with_inputs", r, NetID::Custom02, 1000);
+        let at = sc.at();
+        let never = sc.addr_of(|k| matches!(k, CovKind::Never));
+        let signed = sc.addr_of(|k| matches!(k, CovKind::SigNew(1)));
+        let mut f = Transaction::new(TxKind::Faucet);
+        f.outputs = vec![sc.cd(never, 1 << 30, Denom::Mel), sc.cd(signed, 1 << 30, Denom::Mel), sc.cd(at, 1 << 30, Denom::Mel)];
+        let f = sc.finish_tx(r, f, &[], 0, 0);
+        sc.op_batch(&[f.clone()]);
+        sc.block_end(None);
+        let fc = |i: u8| (CoinID::new(f.hash_nosigs(), i), CoinDataHeight { coin_data: f.outputs[i as usize].clone(), height: BlockHeight(0) });
+        for i in 0..3u8 {
+            let mut t = Transaction::new(TxKind::Faucet);
+            t.outputs = vec![sc.cd(at, 77 + i as u128, Denom::Mel)];
+            t.data = Bytes::from(vec![i]);
+            let mut t = sc.finish_tx(r, t, &[fc(i)], 0, 0);
+            if i == 1 { t.sigs = vec![Bytes::from(vec![0u8; 64])]; }      // a forged signature
+            sc.op_batch(&[t]);
+        }
+        // ... and one whose covenant is not even listed
+        let mut t = Transaction::new(TxKind::Faucet);
+        t.outputs = vec![sc.cd(at, 99, Denom::Mel)];
+        let mut t = sc.finish_tx(r, t, &[fc(0)], 0, 0);
+        t.covenants = vec![];
+        sc.op_batch(&[t]);
+        sc.block_end(None);
         out.push(sc);
     }
     // a staking-epoch boundary with a lapsing stake
